@@ -227,6 +227,11 @@ class Adapter(EnvAdapter):
                 _c("n4_dense_k8", "random_walk", 4, 8, episodes=4, max_steps=16, policies=SOLVE),
                 _c("n5_sparse_k6", "random_walk", 5, 6, reward="sparse", episodes=3, max_steps=12,
                    policies=["solve", "solve_noisy", "random"]),
+                # large boards a few moves away from the goal, solved (the completion test on 49 / 121 cells)
+                _c("n11_dense_k3", "random_walk", 11, 3, episodes=3, max_steps=8, policies=["solve", "solve_noisy", "solve"],
+                   probe_every=2, pure_events=True),
+                _c("n7_sparse_k4", "random_walk", 7, 4, reward="sparse", episodes=3, max_steps=8, policies=["solve", "solve_noisy", "solve"],
+                   probe_every=2),
                 _c("n3_k0", "random_walk", 3, 0, episodes=4, max_steps=6, policies=["masked", "random", "solve_noisy", "random"]),
                 _c("n2_k1_t7", "random_walk", 2, 1, tl=7, episodes=6, max_steps=10, policies=LIMIT),
                 _c("n3_t1", "random_walk", 3, 9, tl=1, episodes=8, max_steps=4, policies=LIMIT),
@@ -259,6 +264,10 @@ class Adapter(EnvAdapter):
             out.append(_c(f"n{n}_k1_t7", "random_walk", n, 1, tl=7, episodes=10, max_steps=10, policies=LIMIT))
             out.append(_c(f"n{n}_k200", "random_walk", n, 200, episodes=10, max_steps=40,
                           policies=["solve", "random", "mostly_masked"] if n <= 3 else ["random", "mostly_masked"]))
+        for n in (6, 7, 8, 9, 10, 11, 12, 13, 16, 22):         # every size up to 13, then 256 and 484 cells: solved from 3-4 moves away
+            out.append(_c(f"n{n}_{'dense' if n % 2 else 'sparse'}_k{3 + n % 2}", "random_walk", n, 3 + n % 2,
+                          reward="dense" if n % 2 else "sparse", episodes=4, max_steps=8,
+                          policies=["solve", "solve_noisy", "solve", "random"], probe_every=2, pure_events=(n in (11, 22))))
         out.append(_c("n6_dense_k12", "random_walk", 6, 12, episodes=6, max_steps=20, policies=["solve_noisy", "random", "mostly_masked"]))
         out.append(_c("n7_sparse_t7", "random_walk", 7, 40, tl=7, reward="sparse", episodes=6, max_steps=10, policies=LIMIT))
         out.append(_c("n3_dense_t500", "random_walk", 3, 31, tl=500, episodes=3, max_steps=503, probe_every=7,
